@@ -413,7 +413,7 @@ def check_private_rng(ctx, R="C15.private"):
 
 
 def check(ctx):
-    check_order(ctx)
-    check_rng_bracket(ctx)
-    check_sinks(ctx)
-    check_private_rng(ctx)
+    ctx.run(check_order)
+    ctx.run(check_rng_bracket)
+    ctx.run(check_sinks)
+    ctx.run(check_private_rng)
